@@ -40,11 +40,12 @@ PROP = dict(
          "sequential oracle program without tasks/channels (producer/consumer) or the renderings computed in Rust (nested "
          "values: as written; receiver's mutations; sender's later mutations invisible). Model cases: one scheduler trace per "
          "program, `heapcopy <value>` for what the reader received and `heapalias` for shared/cyclic payloads; non-trivial = the trace has a blocked read or the "
-         "value has a heap object. Heap payloads stay inside the hypothesis of C09_chan_copy_valid_partial (sender keeps "
-         "the value alive and unmutated until the read); the two D23 shapes are replayed separately",
+         "value has a heap object. Since fix 97d7808 no discipline is imposed on heap payloads any more (the snapshot, hand-over and "
+         "shared-childless streams mutate sent objects, let writers exit and drop handles); the older producer/consumer and nested-value "
+         "streams still keep the sent value alive until acknowledged, which is harmless",
     nontrivial=lambda req, imp: (".b" in imp) or (req.startswith("heap") and ("(" in req or "'" in req)),
     trusted_base=COMMON_TB + [
-        "hook verif_sched in abra_core/src/vm.rs (cfg abra_verif): read-only event log incl. raw channel payloads",
+        "hook verif_sched in abra_core/src/vm.rs (cfg abra_verif): read-only event log; a message carries the written value's (bits, tag) as identity token for the log",
         "Rust VecDeque under Arc<Mutex<_>> assumed to be a FIFO queue; heap model Abra.Heap (objects stay put until their thread is dropped or stores into them)",
     ],
     assumptions=[
@@ -56,10 +57,13 @@ PROP = dict(
     design_ref="DESIGN.md §6 C09",
     level_text="Theorems for every thread step function and every embedder schedule: the values read from a channel are a prefix of "
                "the values written (queue refinement via the trace of executed instructions), reads never outnumber writes, a blocked "
-               "read changes nothing but the trace and the scheduler moves on. Copy validity after fix 97d7808, with NO hypothesis on "
-               "what the writer does after the write: a read returns an isomorphic copy of the graph as it was WRITTEN (sharing and "
+               "read changes nothing but the trace and the scheduler moves on (stated for one instruction, and for the turn of a runnable "
+               "reader at the head of a clean run queue). Copy validity after fix 97d7808, with NO hypothesis on "
+               "what the writer does after the write but under the hypothesis that the read returns (which it does on a well-formed "
+               "written graph with fuel = written objects + 1): a read returns an isomorphic copy of the graph as it was WRITTEN (sharing and "
                "cycles kept, every object freshly allocated in the reader's heap, nothing existing changed), values that rendered "
-               "render equal, scalars are received unchanged, the read always succeeds with fuel = written objects + 1. The two "
+               "render equal, scalars are received unchanged, a channel inside a message is received as a handle on the same queue. The FIFO "
+               "theorems are about runs started from Runtime::new (or any state satisfying the queue invariant ChanInv). The two "
                "witnesses of the old copy-at-read behaviour (D23) are kept as historical theorems about chanReceiveOld.",
     level_note="proof (D23 fixed by 97d7808; its two replays are hard regression runs). Models validated by correspondence, not derived from vm.rs.",
     technique="Lean 4 theorems (trace/queue invariant lifted through the scheduler loop, heap-copy lemmas) + trace validation, sequential-oracle and rendering checks against the real runtime",
